@@ -120,6 +120,9 @@ fn points2(n: usize, shape: usize) -> Vec<Point2D> {
         .map(|j| match shape {
             1 => Point2D::new(1.0, 2.0),
             2 => Point2D::new(j as f64, 0.0),
+            // finite coordinates whose squares overflow: the oriented bounding box of Rib panics on them
+            // (finding K8); only generated with MISMATCHED lengths, where the frame must not be built
+            3 => Point2D::new(if j % 2 == 0 { 1e200 } else { -1e200 }, j as f64),
             _ => Point2D::new(j as f64, ((j * j) % 5) as f64 + 0.25 * j as f64),
         })
         .collect()
@@ -518,6 +521,12 @@ pub fn generate(ctx: &mut Ctx) {
                                     c.iter = iter;
                                     c.tol = tol;
                                     emit(ctx, &mut seen, &c);
+                                    // a mismatch must be reported before anything is computed from the
+                                    // points: the same case on a point set on which Rib's frame panics
+                                    if shape == 0 && npts >= 2 && (nw != p.len() || npts != p.len()) {
+                                        c.shape = 3;
+                                        emit(ctx, &mut seen, &c);
+                                    }
                                 }
                             }
                         }
